@@ -33,14 +33,14 @@ def _global(c, **vals):
     return ObjSpec('GlobalCache', variable_dict=dict(vals), log=ObjSpec('Logger'))
 
 
-def _singletons(st):
-    me = st.get(st.env['self'])
+def _singletons(st, ex=None):
+    me = st.get((ex.root_env if ex is not None else st.env)['self'])
     return me.attrs
 
 
-_NEW = {'new:GlobalCache': lambda ex, st, args, kwargs, node: _singletons(st)['g_global'],
-        'new:KTableCache': lambda ex, st, args, kwargs, node: _singletons(st)['g_ktables'],
-        'new:OpacityCache': lambda ex, st, args, kwargs, node: _singletons(st)['g_xsecs']}
+_NEW = {'new:GlobalCache': lambda ex, st, args, kwargs, node: _singletons(st, ex)['g_global'],
+        'new:KTableCache': lambda ex, st, args, kwargs, node: _singletons(st, ex)['g_ktables'],
+        'new:OpacityCache': lambda ex, st, args, kwargs, node: _singletons(st, ex)['g_xsecs']}
 
 
 # ------------------------------------------------------------------ GlobalCache as a map
@@ -657,7 +657,7 @@ def _h_open(ex, st, args, kwargs, node):
 def _h_pickle_load(ex, st, args, kwargs, node):
     """pickle.load(f): the dictionary stored in the file (the ghost parameter _file)"""
     st.trace.append(('ev', ('pickle.load', args[0].ident if isinstance(args[0], AbsObj) else args[0])))
-    return st.env['_file']
+    return ex.root_env['_file']
 
 
 def _pk_post(c, v0, v1, r):
@@ -895,7 +895,7 @@ def _h5_get(extra):
         """file[key]: a dataset of the file, KeyError when the file has none of that name"""
         key = args[0]
         fx = ex.c.fixed
-        names = list(st.get(st.env['_file']).items) + list(extra) + (['DOI'] if fx.get('doi') else [])
+        names = list(st.get(ex.root_env['_file']).items) + list(extra) + (['DOI'] if fx.get('doi') else [])
         if key not in names:
             raise _Raise(st, ExcV('KeyError', getattr(node, 'lineno', 0)))
         attrs = {}
@@ -921,7 +921,7 @@ def _h_h5_read(ex, st, o, args, kwargs, node):
         return AbsObj('ndarray', 'names', {})
     if o.ident == 'DOI':
         return AbsObj('ndarray', 'dois', {})
-    return st.get(st.env['_file']).items[o.ident]
+    return st.get(ex.root_env['_file']).items[o.ident]
 
 
 def _h_nd_get(ex, st, o, args, kwargs, node):
@@ -941,7 +941,7 @@ def _h_unit(ex, st, args, kwargs, node):
 
 def _h_unit_to(ex, st, o, args, kwargs, node):
     _ev(st, 'unit.to', o.ident)
-    return st.env['_conv']
+    return ex.root_env['_conv']
 
 
 def _h5_post(c, v0, v1, r):
@@ -1140,7 +1140,7 @@ def _hk_gen(rng):
 
 def _h_hk_read(ex, st, o, args, kwargs, node):
     _ev(st, 'read', o.ident)
-    return st.get(st.env['_file']).items[o.ident]
+    return st.get(ex.root_env['_file']).items[o.ident]
 
 
 H5K = Unit('C14', 'taurex.opacity.ktables.hdfktable:HDF5KTable._load_pickle_file', _hk_params,
@@ -1345,7 +1345,7 @@ def _h_ex_float(ex, st, args, kwargs, node):
     t = args[0]
     if not isinstance(t, AbsObj):
         return lib.HANDLERS['builtins.float'](ex, st, args, kwargs, node)
-    f = st.get(st.env['_file']).items
+    f = st.get(ex.root_env['_file']).items
     A = lambda name: lib.arr(ex, st, f[name])
     k = t.ident
     if k[0] == 'T':
